@@ -360,7 +360,8 @@ def r02_8(ctx):
         ctx.require(ok, 'R02.8', f'from_bytes({label})', w, f'{shape!r} gives {outs}; an item that is not an integer must raise TypeError',
                     construct=f'{dec.qname}::non-integer-item')
     n1, v1 = smf_sym('n1', 127), smf_sym('v1', 127)
-    for kind in ('deque', 'iterator', 'tuple'):
+    # (an array holds integers like a list does; its items may be wider than a byte, its buffer is not its items)
+    for kind in ('deque', 'iterator', 'tuple', 'array'):
         for shape, label, want in (([0x93, n1, v1], 'a note_on', 'return'), ([0xf8], 'a clock', 'return'), ([0xf0, n1, v1, 0xf7], 'a sysex', 'return'),
                                    ([0x93, n1], 'a truncated note_on', 'ValueError'), ([], 'nothing', 'ValueError')):
             n += 1
